@@ -8,10 +8,11 @@ import PauLieVerif.Model.CmdLinear
 import PauLieVerif.Model.CmdDecomp
 import PauLieVerif.Model.CmdTwoLocal
 import PauLieVerif.Model.CmdCompiler
+import PauLieVerif.Model.CmdSecondMoment
 
 open PauLie
 
-def handlers : List (String → Option String) := [CmdPS.handle, CmdGraph.handle, CmdClassify.handle, CmdCollection.handle, CmdOptimise.handle, CmdOtoc.handle, CmdLinear.handle, CmdDecomp.handle, CmdTwoLocal.handle, CmdCompiler.handle]
+def handlers : List (String → Option String) := [CmdPS.handle, CmdGraph.handle, CmdClassify.handle, CmdCollection.handle, CmdOptimise.handle, CmdOtoc.handle, CmdLinear.handle, CmdDecomp.handle, CmdTwoLocal.handle, CmdCompiler.handle, CmdSecondMoment.handle]
 
 def respond (line : String) : String :=
   match handlers.findSome? (fun h => h line) with
